@@ -12,12 +12,16 @@
    unit of the 36th decimal (Properties/C03.v has the witness); it never reaches one token unit while n < 2 * 10^36, which
    is what the corollaries need.  Also proved: no operation creates or destroys funds (the three module accounts plus the
    users are a closed system).
-   NOT proved (see C01_full below): the two reward-account conjuncts and the success of the exit sequence itself. *)
+   The SPREAD-REWARD ACCOUNT conjunct is proved in the form of DESIGN 9.2 (C01_spread_covered_partial): whenever the claim queries
+   succeed, the sum of all claimable spread rewards is at most the account's balance, provided the number of MulDec roundings of
+   the history (two per withdrawal, one per collected position) plus the number of open positions is below 2 x scaling factor.
+   NOT proved (see C01_full below): the incentive-account conjunct, that claim queries never fail, and the success of the exit
+   sequence itself. *)
 From Coq Require Import ZArith QArith List Bool Lia Sorting.Permutation.
 Import ListNotations.
 From Osmo Require Import Base.DecModel CL.TickMath CL.CLMath CL.CLPool CL.CLSwap CL.CLStep CL.Ideal
   CLR.Accum CLR.Rewards CLR.RSwap CLR.RStep C07.Base C07.LP C08.Proj C08.Dom
-  C01.Funds C01.Exact C01.Solvent C01.SwapPath C01.Potential C01.SwapSolvent C01.History C01.Full.
+  C08.PaidHist C01.Funds C01.Exact C01.Solvent C01.SwapPath C01.Potential C01.SwapSolvent C01.History C01.Full C01.SpreadAcc.
 Open Scope Z_scope.
 
 (* ==== the full statement (DESIGN.md section 5, C01) ==== *)
@@ -125,6 +129,16 @@ Theorem C01_dust_nonneg_pool_partial : forall sp spf ssc isc users t ops, 0 < sp
 Proof. exact dust_nonneg. Qed.
 Print Assumptions C01_dust_nonneg_pool_partial.
 
+(* spread-reward account conjunct of Solv, PARTIAL: under the explicit rounding budget, and for states whose claim queries succeed *)
+Theorem C01_spread_covered_partial : forall sp spf ssc isc users t ops c, 0 < sp -> 0 <= spf <= 500000000000000000 -> 0 < ssc ->
+  let rs0 := rinit sp spf ssc isc users t in
+  let rs := rrun rs0 ops in
+  hist_pcost rs0 ops + Z.of_nat (length (s_pos (r_base rs))) < 2 * ssc ->
+  spread_claims rs = Some c ->
+  fst c <= fst (b_spread (s_bank (r_base rs))) /\ snd c <= snd (b_spread (s_bank (r_base rs))).
+Proof. exact spread_covered_reachable. Qed.
+Print Assumptions C01_spread_covered_partial.
+
 (* a history with two positions, a one-for-zero swap that crosses tick 1000, a swap back, an incentive and a partial withdrawal:
    the slack counter is positive and far below the bound, position 1 is open and its full withdrawal pays both tokens *)
 Definition ex_init : rstate :=
@@ -143,12 +157,14 @@ Example C01_solv_reachable_nonvacuous :
   let s := r_base (rrun ex_init ex_hist) in
   0 < hist_cost ex_init ex_hist < 2 * 10 ^ 36 /\ length (s_pos s) = 2%nat /\
   0 < fst (b_pool (s_bank s)) /\ 0 < snd (b_pool (s_bank s)) /\
-  exists q x0 x1, In q (s_pos s) /\ calc_actual_amounts (s_pool s) (ps_lower q) (ps_upper q) (- ps_liq q) = Some (x0, x1)
-    /\ d_truncate_int x0 < 0 /\ d_truncate_int x1 < 0.
+  (exists q x0 x1, In q (s_pos s) /\ calc_actual_amounts (s_pool s) (ps_lower q) (ps_upper q) (- ps_liq q) = Some (x0, x1)
+    /\ d_truncate_int x0 < 0 /\ d_truncate_int x1 < 0) /\
+  hist_pcost ex_init ex_hist = 2 /\ exists c, spread_claims (rrun ex_init ex_hist) = Some c /\ 0 < fst c /\ 0 < snd c.
 Proof.
   intro s. let v := eval vm_compute in (r_base (rrun ex_init ex_hist)) in assert (E : s = v) by (vm_compute; reflexivity).
   clearbody s. subst s.
   split; [split; vm_compute; reflexivity|]. split; [reflexivity|].
   split; [vm_compute; reflexivity|]. split; [vm_compute; reflexivity|].
-  eexists. eexists. eexists. split; [left; reflexivity|]. split; [vm_compute; reflexivity|]. split; vm_compute; reflexivity.
+  split; [eexists; eexists; eexists; split; [left; reflexivity|]; split; [vm_compute; reflexivity|]; split; vm_compute; reflexivity|].
+  split; [vm_compute; reflexivity|]. eexists. split; [vm_compute; reflexivity|]. split; vm_compute; reflexivity.
 Qed.
